@@ -266,14 +266,14 @@ PROPS["C14"] = {
              "for all contents incl. ']' / '>' runs); indentation only adds whitespace-only text nodes and none inside mixed "
              "content, xml:space=preserve scope or suppressed elements",
     "harnesses": [
-        H("h_c14_cdata", {"N": 2}, {"N": 3}, shards={"quick": shard_product(("len", 2), ("cdata", 3)), "thorough": shard_product(("len", 3), ("cdata", 3))}),
-        H("h_c14_gt", {"N": 3}, {"N": 4}, shards={"quick": shard_product(("len", 3), ("decl", 3)), "thorough": shard_product(("len", 4), ("decl", 3))}),
-        H("h_c14_pretty", shards={"quick": shard_product(("xs_a", 3), ("xs_b", 3), ("mixed", 4)), "thorough": shard_product(("xs_a", 3), ("xs_b", 3), ("mixed", 4))}),
+        H("h_c14_cdata", {"N": 2}, {"N": 3, "SYMU": 1}, shards={"quick": shard_product(("len", 2), ("cdata", 3)), "thorough": shard_product(("len", 3), ("cdata", 3))}),
+        H("h_c14_gt", {"N": 2}, {"N": 4}, shards={"quick": shard_product(("len", 2), ("decl", 3)), "thorough": shard_product(("len", 4), ("decl", 3))}),
+        H("h_c14_pretty", {"SYMT": 0}, {"SYMT": 1}, shards={"quick": shard_product(("xs_a", 3), ("xs_b", 3), ("mixed", 4)), "thorough": shard_product(("xs_a", 3), ("xs_b", 3), ("mixed", 4))}),
     ],
-    "bounds": {"quick": "CDATA: text of <=2 symbolic chars (+1 in a child) under 3 CDATA-element sets x unescaped_gt; unescaped_gt: "
-                        "<=3 symbolic chars x 3 declaration settings; indentation: a 5-element tree with xml:space none/preserve/"
-                        "default on 3 levels, a symbolic text child at 4 positions, 3 suppress lists, document and element",
-               "thorough": "one more symbolic character"},
+    "bounds": {"quick": "CDATA: text of <=2 symbolic chars (+ ']]>' in a child) under 3 CDATA-element sets x unescaped_gt; unescaped_gt: "
+                        "<=2 symbolic chars x 3 declaration settings; indentation: a 5-element tree with xml:space none/preserve/"
+                        "default on 3 levels, a text child at 4 positions, 3 suppress lists, document and element",
+               "thorough": "CDATA <=3 (+1 symbolic in the child), unescaped_gt <=4, symbolic text child in the indentation tree"},
     "outside": "doctype output; normalizers; longer runs of ']' and '>' than the bound",
     "assumptions": [],
 }
